@@ -242,6 +242,18 @@ def run(ctx, widen=False):
             _fail(ctx, "rt-idempotent", "write . parse is not a fixed point (cfg %s): x=%r" % (cfg, x[:120]), [rcases[k]], [o], "o2 = o1")
         else:
             ctx.count("roundtrips_ok")
+    if not widen:
+        probe_bom_key(ctx)
+
+
+def probe_bom_key(ctx):
+    """known finding rt-bom-key (model-side witness C14_bom_key_refuted): replayed on the implementation every run"""
+    case = "writer.rt\t32,2,r\t" + hexs(b" \xef\xbb\xbfabc=1")
+    impl, _ = ctx.correspond("probe_bom_key", [case], model=False, nontrivial=lambda c, i: True)
+    o = impl[-1]
+    r = dict(p.split("=", 1) for p in o.split(" | ") if "=" in p)
+    if r.get("t1") is not None and r.get("t2") != r.get("t1"):
+        _fail(ctx, "rt-bom-key", "a first key starting with EF BB BF is stripped as a BOM when the written text is re-parsed: t1=%s t2=%s" % (r.get("t1"), r.get("t2")), [case], [o], "t2 = t1")
 
 
 def search(ctx):
@@ -251,6 +263,6 @@ def search(ctx):
 
 CLAIM = {
     "text": "Coq theorems over a faithful Gallina model of text/writer.rs (9-state machine with the WRITE_STATE_NEXT table regenerated from the source, depth stack, line-terminator flag, mixed mode, 16-byte indent cache vs slow path, write_tape traversal over the DOM readers): the writer never panics on any call history, indentation is cache-independent for every indent char/factor, state queries are functions of the call prefix; the model is tied to the code by differential execution of write_tape (exact bytes + state queries, release and debug) on parsed renderings of generated documents, and the property's own oracles (parse(write(parse x)) = parse x, write-after-parse is a fixed point) are evaluated on the implementation with the real parser",
-    "note": "The text parser is not modelled in this family (C01/C06): re-parse equality is an oracle on the implementation, not a theorem. Trusted: Coq kernel, tools/gen_tables.py, extraction, the Rust harness.",
+    "note": "Since Props/C14_reparse.v the re-parse clause is a theorem too: write_tape (flatten d) = render d' (layout_w cfg d) for the round-trippable grammar and every config, composed with C01_parse_render (C14_reparse, C14_idempotent); the exclusions are the recorded known findings. Trusted: Coq kernel, tools/gen_tables.py, extraction, the Rust harness.",
     "technique": "machine-checked proof in Coq over an executable model + model/implementation correspondence by extraction + round-trip oracles on the implementation",
 }
